@@ -141,6 +141,10 @@ func ParseLine(s string) *Line {
 				line.Tags[pair[0]] = pair[1]
 			}
 		}
+		if s == "" {
+			// nothing but tags
+			return nil
+		}
 	}
 
 	if s[0] == ':' {
@@ -168,6 +172,10 @@ func ParseLine(s string) *Line {
 		args = append(strings.Fields(args[0]), args[1])
 	} else {
 		args = strings.Fields(args[0])
+	}
+	if len(args) == 0 {
+		// no verb
+		return nil
 	}
 	line.Cmd = strings.ToUpper(args[0])
 	if len(args) > 1 {
